@@ -129,6 +129,21 @@ def deco_line(l, i):
     raise ValueError(d)
 
 
+def make_deco(l, i, ns):
+    """the decorator object of level i (programmatic application)"""
+    d = l['d']
+    f = ns[d]
+    if d in ('trace_if_returns', 'mock'):
+        return f(ns['RV'][i])
+    if d == 'does_same_as_function':
+        return f(ns['other'])
+    if d == 'rename_kwargs':
+        return f(*ns['RULES'][i])
+    if d == 'overrides':
+        return f(ns[f'Base{i}'])
+    return f
+
+
 def render(case, decorated):
     """module source for a stack case"""
     src = ''
@@ -147,7 +162,7 @@ def render(case, decorated):
     if case.get('method'):
         src += 'class K:\n'
         ind = '    '
-    if decorated:
+    if decorated and case.get('apply', '@') == '@':
         for i, l in enumerate(stack):
             src += ind + deco_line(l, i) + '\n'
     src += fn_src('f', case['sig'], case['async'], 0, indent=ind)
@@ -216,6 +231,14 @@ def run_stack(case):
             ns[n] = getattr(pd, n)
         try:
             load(render(case, decorated), ns)
+            if decorated and case.get('apply', '@') == 'call':      # f = d1(d2(f)), no decorator lines in the source
+                obj = ns['K'].__dict__['f'] if case.get('method') else ns['f']
+                for i in reversed(range(len(case['stack']))):
+                    obj = make_deco(case['stack'][i], i, ns)(obj)
+                if case.get('method'):
+                    setattr(ns['K'], 'f', obj)
+                else:
+                    ns['f'] = obj
         except BaseException as ex:
             res['dec' if decorated else 'twin'] = {'deco_error': path_or_fresh(ex), 'deco_error_repr': repr(ex)[:200]}
             continue
